@@ -91,6 +91,13 @@ func (w *world) rndChanDef() J {
 	if g.R.Intn(2) == 0 {
 		opts = hexs([]byte{byte(g.R.Intn(4))})
 	}
+	if g.R.Intn(15) == 0 {
+		// long opts (an ABI schema is easily a few kilobytes): nothing may shorten or re-encode them on the way
+		// through observations, outcomes and their codecs; sizes around the powers of two a cap would use
+		b := make([]byte, []int{255, 256, 257, 1023, 1024, 1025, 1500, 4096, 4097}[g.R.Intn(9)])
+		g.R.Read(b)
+		opts = hexs(b)
+	}
 	return J{"format": S(formatsPool[g.R.Intn(len(formatsPool))]), "streams": st, "opts": opts}
 }
 
